@@ -1,0 +1,80 @@
+//go:build verif
+
+package ingress
+
+// Contracts for govc (see /verif/DESIGN.md). Comments only; compiled only with -tags verif.
+
+//@ spec
+//@ ghost var selectedSecrets [][]byte
+//@ ghost var selectedAt time.Time
+//@ func unixTime(sec int64) time.Time := epoch() + sec * 1000000000
+//@ func signedMessage(ts string, method string, path string, body []byte) string := concat(ts, "\n", method, "\n", path, "\n", hexOf(sha256Of(body)))
+//@ pred hmacConfigured(a *HMACAuth) := a != nil && (len(a.Secrets) > 0 || a.SelectSecrets != nil)
+
+//@ fieldfunc ingress.nonceCache.now() (t)
+//@   modifies clockNow
+//@   ensures t != 0 && clockNow == t
+
+//@ fieldfunc ingress.HMACAuth.SelectSecrets(at) (out)
+//@   modifies selectedSecrets, selectedAt
+//@   ensures selectedSecrets == out && selectedAt == at
+
+//@ type nonceCache monitor mu
+//@   guards m, now
+//@   inv [map] self.m != nil
+
+//@ func newNonceCache
+//@   ensures [fresh] result != nil && fresh(result) && result.m != nil && fresh(result.m) && (forall k string :: !(k in result.m))
+
+//@ func (*nonceCache).setNow
+//@   requires c != nil
+//@   modifies c.now
+
+//@ func (*nonceCache).seenOnceAt
+//@   requires c != nil
+//@   modifies c.m, clockNow
+//@   loop 1 invariant [only_expired_dropped] forall k string :: old(k in c.m) && now <= old(c.m[k]) ==> k in c.m && c.m[k] == old(c.m[k])
+//@   loop 1 invariant [no_new] (forall k string :: k in c.m ==> old(k in c.m) && c.m[k] == old(c.m[k])) && c.m != nil
+//@   ensures [C09:reject_while_window_open] let at := ite(now != 0, now, clockNow) :: old(nonce in c.m) && at <= old(c.m[nonce]) ==> !result
+//@   ensures [C09:records_expiry] result ==> nonce in c.m && c.m[nonce] == expiresAt
+//@   ensures [C09:live_entries_kept] let at := ite(now != 0, now, clockNow) :: forall k string :: k != nonce && old(k in c.m) && at <= old(c.m[k]) ==> k in c.m && c.m[k] == old(c.m[k])
+//@   ensures [C09:refusal_keeps_entry] !result && nonce != "" ==> nonce in c.m && c.m[nonce] == old(c.m[nonce])
+//@   ensures [C09:accepts_new] let at := ite(now != 0, now, clockNow) :: nonce != "" && !(old(nonce in c.m) && at <= old(c.m[nonce])) ==> result
+//@   ensures [empty_nonce_refused] nonce == "" ==> !result
+//@   ensures [clock_untouched_when_given] now != 0 ==> clockNow == old(clockNow)
+
+//@ func (*nonceCache).seenOnce
+//@   requires c != nil
+//@   modifies c.m, clockNow
+//@   ensures [C09:reject_while_window_open] old(nonce in c.m) && clockNow <= old(c.m[nonce]) ==> !result
+//@   ensures [C09:records_expiry] result ==> nonce in c.m && c.m[nonce] == expiresAt
+
+//@ func secureEqual
+//@   ensures [C08:iff_equal] result <==> a == b
+
+//@ func (*BasicAuth).Verify
+//@   requires r != nil
+//@   ensures [C08:basic_sound] a != nil && len(a.Users) > 0 && result ==> ext2("net/http.(*Request).BasicAuth", "$2", r) && ext2("net/http.(*Request).BasicAuth", "$0", r) in a.Users && a.Users[ext2("net/http.(*Request).BasicAuth", "$0", r)] == ext2("net/http.(*Request).BasicAuth", "$1", r)
+//@   ensures [C08:basic_unconfigured] (a == nil || len(a.Users) == 0) ==> result
+
+//@ func (*HMACAuth).Verify
+//@   requires r != nil && r.Header != nil
+//@   modifies a.nonce, a.nonce.now, a.nonce.m, clockNow, macKey, macData, selectedSecrets, selectedAt
+//@   loop 1 invariant [none_before] forall j int :: 0 <= j && j <= rangeindex ==> !(len(secrets[j]) > 0 && gotSig == hmacSHA256(secrets[j], msg))
+//@   ensures [C08:unconfigured_passes] !hmacConfigured(a) ==> result == nil
+//@   ensures [C08:only_unauthorized] result == nil || result == ErrUnauthorized
+//@   ensures [C08:headers_present] hmacConfigured(a) && result == nil ==> trim(headerGet(r.Header, a.SignatureHeader)) != "" && trim(headerGet(r.Header, a.TimestampHeader)) != "" && trim(headerGet(r.Header, a.NonceHeader)) != ""
+//@   ensures [C08:timestamp_parses] hmacConfigured(a) && result == nil ==> ext2("strconv.ParseInt", "$1", trim(headerGet(r.Header, a.TimestampHeader)), 10, 64) == nil
+//@   ensures [C08:within_tolerance] hmacConfigured(a) && result == nil && a.Tolerance > 0 ==> let t := unixTime(ext2("strconv.ParseInt", "$0", trim(headerGet(r.Header, a.TimestampHeader)), 10, 64)) :: clockNow - t <= a.Tolerance && t - clockNow <= a.Tolerance
+//@   ensures [C08:signature_matches_a_secret] hmacConfigured(a) && result == nil ==> let sig := hexdecOf(trim(headerGet(r.Header, a.SignatureHeader))) :: let msg := signedMessage(trim(headerGet(r.Header, a.TimestampHeader)), r.Method, requestPath, body) :: let i := rangeindex1 :: (a.SelectSecrets == nil ==> 0 <= i && i < len(a.Secrets) && len(a.Secrets[i]) > 0 && sig == hmacSHA256(a.Secrets[i], msg)) && (a.SelectSecrets != nil ==> 0 <= i && i < len(selectedSecrets) && len(selectedSecrets[i]) > 0 && sig == hmacSHA256(selectedSecrets[i], msg))
+//@   ensures [C08:secrets_valid_at_signed_time] hmacConfigured(a) && result == nil && a.SelectSecrets != nil ==> selectedAt == unixTime(ext2("strconv.ParseInt", "$0", trim(headerGet(r.Header, a.TimestampHeader)), 10, 64))
+//@   ensures [C09:nonce_recorded_until_window_end] hmacConfigured(a) && result == nil ==> a.nonce != nil && trim(headerGet(r.Header, a.NonceHeader)) in a.nonce.m && a.nonce.m[trim(headerGet(r.Header, a.NonceHeader))] == unixTime(ext2("strconv.ParseInt", "$0", trim(headerGet(r.Header, a.TimestampHeader)), 10, 64)) + a.Tolerance
+//@   ensures [C09:replay_rejected] let n := trim(headerGet(r.Header, a.NonceHeader)) :: hmacConfigured(a) && old(a.nonce != nil) && old(n in a.nonce.m) && clockNow <= old(a.nonce.m[n]) ==> result != nil
+
+//@ func (*ForwardAuth).Authorize
+//@   modifies *
+//@   ensures [C08:forward_unconfigured] (a == nil || trim(a.URL) == "") ==> result1 == 0 && sends == old(sends)
+//@   ensures [C08:forward_status_set] result1 == 0 || result1 == 401 || result1 == 403 || result1 == 503
+//@   ensures [C08:forward_accept_needs_2xx] a != nil && trim(a.URL) != "" && result1 == 0 ==> sends == old(sends) + 1 && lastRespCode >= 200 && lastRespCode < 300
+//@   ensures [C08:forward_denials_pass_through] a != nil && trim(a.URL) != "" && (result1 == 401 || result1 == 403) ==> sends == old(sends) + 1 && lastRespCode == result1
+//@   ensures [C08:forward_one_call] sends == old(sends) || sends == old(sends) + 1
